@@ -14,10 +14,12 @@ IFACES = ["sync", "concurrent", "async", "rust", "tf"]
 # ------------------------------------------------------------------------------------------------
 class LogSource:
     """Iterator over `xs` that logs every `next()` as a pull label."""
-    def __init__(self, xs, log, infinite=False):
-        self.it = iter(itertools.count(xs) if infinite else xs); self.log = log
+    def __init__(self, xs, log, infinite=False, pull_limit=None):
+        self.it = iter(itertools.count(xs) if infinite else xs); self.log = log; self.limit = pull_limit
     def __iter__(self): return self
     def __next__(self):
+        if self.limit is not None and sum(1 for l in self.log if l[0] == "pull") >= self.limit:
+            raise RuntimeError("pull-limit")          # a run-away reader: stop it
         try:
             x = next(self.it)
         except StopIteration:
@@ -25,13 +27,13 @@ class LogSource:
         self.log.append(["pull", x]); return x
 
 
-def trace_sb(xs, b, take=None, infinite=False):
+def trace_sb(xs, b, take=None, infinite=False, pull_limit=None):
     """Run the real shuffle_buffer; returns (labels, output, error)."""
     sp.sedpack()
     from sedpack.io.itertools import shuffle_buffer
     log, out, err = [], [], None
     try:
-        for i, y in enumerate(shuffle_buffer(LogSource(xs, log, infinite), buffer_size=b)):
+        for i, y in enumerate(shuffle_buffer(LogSource(xs, log, infinite, pull_limit), buffer_size=b)):
             log.append(["yield", y]); out.append(y)
             if take is not None and i + 1 >= take:
                 break
